@@ -127,8 +127,19 @@ class SlideGen:
         return items, xml
 
 
-def package(slides_xml, enc="ascii-refs"):
+def notes_slide_xml(token: str) -> str:
+    return (f'<p:notes {NS}><p:cSld><p:spTree><p:nvGrpSpPr><p:cNvPr id="1" name=""/><p:cNvGrpSpPr/><p:nvPr/></p:nvGrpSpPr><p:grpSpPr/>'
+            '<p:sp><p:nvSpPr><p:cNvPr id="2" name="Notes"/><p:cNvSpPr/><p:nvPr><p:ph type="body" idx="1"/></p:nvPr></p:nvSpPr><p:spPr/>'
+            f'<p:txBody><a:bodyPr/><a:p><a:r><a:t>{token}</a:t></a:r></a:p></p:txBody></p:sp></p:spTree></p:cSld></p:notes>')
+
+
+def package(slides_xml, enc="ascii-refs", notes=None, enc_meta=False):
+    """notes: per slide a speaker-notes token or None -> ppt/notesSlides/notesSlideN.xml + slide relationship."""
+    import re as _re
     from props.c02 import encode_part
+    notes = notes or [None] * len(slides_xml)
+    meta = (lambda x: encode_part(_re.sub(r"^<\?xml[^>]*\?>", "", x), enc)) if enc_meta else (lambda x: x)
+    part = lambda x: encode_part(x.encode("ascii", "xmlcharrefreplace").decode("ascii"), enc)
     ct = ('<?xml version="1.0" encoding="UTF-8"?><Types xmlns="http://schemas.openxmlformats.org/package/2006/content-types">'
           '<Default Extension="rels" ContentType="application/vnd.openxmlformats-package.relationships+xml"/>'
           '<Default Extension="xml" ContentType="application/xml"/>'
@@ -145,10 +156,17 @@ def package(slides_xml, enc="ascii-refs"):
                      for i in range(len(slides_xml))) + "</Relationships>")
     b = io.BytesIO()
     with zipfile.ZipFile(b, "w", zipfile.ZIP_DEFLATED) as z:
-        z.writestr("[Content_Types].xml", ct)
-        z.writestr("_rels/.rels", rels)
-        z.writestr("ppt/presentation.xml", pres)
-        z.writestr("ppt/_rels/presentation.xml.rels", prels)
+        z.writestr("[Content_Types].xml", meta(ct))
+        z.writestr("_rels/.rels", meta(rels))
+        z.writestr("ppt/presentation.xml", meta(pres))
+        z.writestr("ppt/_rels/presentation.xml.rels", meta(prels))
+        for i, tok in enumerate(notes):
+            if tok is not None:
+                z.writestr(f"ppt/notesSlides/notesSlide{i + 1}.xml", part(notes_slide_xml(tok)))
+                z.writestr(f"ppt/slides/_rels/slide{i + 1}.xml.rels", meta(
+                    '<?xml version="1.0" encoding="UTF-8"?><Relationships xmlns="http://schemas.openxmlformats.org/package/2006/relationships">'
+                    '<Relationship Id="rId1" Type="http://schemas.openxmlformats.org/officeDocument/2006/relationships/notesSlide" '
+                    f'Target="../notesSlides/notesSlide{i + 1}.xml"/></Relationships>'))
         for i, x in enumerate(slides_xml):
             # part-encoding dimension shared by all C02 package writers (non-ASCII as references first)
             z.writestr(f"ppt/slides/slide{i + 1}.xml", encode_part(x.encode("ascii", "xmlcharrefreplace").decode("ascii"), enc))
@@ -167,7 +185,7 @@ def run_part(ctx):
     next_id = [0]
     gen = SlideGen(rng, next_id)
     decks = []
-    for _ in range(ctx.n(90, 1500)):
+    for _ in range(ctx.n(70, 1500)):
         slides = [gen.slide(rng.choice(["equal", "equal", "missing", "mixed", "distinct"])) for _ in range(rng.randint(1, 3))]
         decks.append(slides)
     cases, info = [], []
@@ -175,7 +193,11 @@ def run_part(ctx):
         from props.c02 import pick_encoding
         enc = pick_encoding(rng)
         ctx.count("pptx-encoding:" + enc)
-        pkg = package([x for _, x in slides], enc)
+        notes = [("N\u00e9q" + str(900000 + gen.next_id[0] + j)) if rng.random() < 0.5 else None for j in range(len(slides))]
+        enc_meta = rng.random() < 0.5
+        if enc_meta:
+            ctx.count("pptx-encoding-of-rels-and-content-types:" + enc)
+        pkg = package([x for _, x in slides], enc, notes, enc_meta)
         try:
             content = next(PX.read_pptx(io.BytesIO(pkg)))
             full = content.get_full_text()
@@ -185,6 +207,13 @@ def run_part(ctx):
                         f"read_pptx raised {type(e).__name__}: {e} on a generated deck (slides encoded as {enc})",
                         {"format": "pptx", "slides": [x for _, x in slides], "encoding": enc})
             continue
+        # speaker notes (notesSlide parts) are documented as excluded from the text
+        unit_texts = [u.get_text() for u in content.iterate_units()]
+        for tok in notes:
+            if tok is not None and (tok in full or any(tok in t for t in unit_texts + per_slide)):
+                ctx.finding("pptx:speaker-notes-in-text", "PPTX: the text of a notes slide (ppt/notesSlides/notesSlideN.xml) appears in "
+                            "get_full_text() / a unit's text", {"format": "pptx", "notes_token": tok, "full": full, "encoding": enc})
+        ctx.count("pptx:decks-with-notes-slides", 1 if any(notes) else 0)
         all_expected = []
         for (items, xml), text in zip(slides, per_slide):
             # the key oracle: what _get_shape_position really returns for every generated shape
@@ -232,4 +261,8 @@ def run_part(ctx):
     ctx.disagreements += len(failing)
     ctx.obligation("correspondence:pptx slide_order model == token order of PptxSlide.base_text", ok and not failing,
                    (f"{len(failing)} disagreements; first: got={info[failing[0]][1]} xml={info[failing[0]][0][:700]} " if failing else "") + log[:600])
-    ctx.extra["pptx"] = {"slides": len(cases)}
+    import inspect
+    ctx.extra["pptx"] = {"slides": len(cases),
+                         "extractor_mentions_notesSlide_parts": "notesSlide" in inspect.getsource(PX),
+                         "notes": "notes slides are generated for ~50% of the slides; the extractor does not read them (module docstring: "
+                                  "'Speaker notes are not currently extracted'); the oracle asserts their text is in no unit and not in get_full_text()"}
